@@ -5,9 +5,46 @@
 #include "busworld.h"
 #include <stdarg.h>
 
+#ifdef BUSMC_WITH_POLL
+#include "ebusd/bushandler.h"
+#include "lib/ebus/message.h"
+#endif
+
 namespace bw {
 
 int TReq::s_live = 0;
+
+#ifdef BUSMC_WITH_POLL
+// the real PollRequest of bushandler.cpp on a two-part chained read message; only notify() is wrapped
+// so that the monitors see the completion and the restart decision the real code takes
+class PollResolver : public Resolver {
+ public:
+  DataFieldTemplates templates;
+  DataFieldTemplates* getTemplates(const std::string&) override { return &templates; }
+  result_t loadDefinitionsFromConfigPath(FileReader*, const std::string&, std::map<std::string, std::string>*, std::string*, bool) override { return RESULT_ERR_NOTFOUND; }
+};
+struct PollCtx {
+  PollResolver resolver;
+  MessageMap* map = nullptr;
+  Message* msg = nullptr;
+  ~PollCtx() { delete map; }
+};
+class TPoll : public PollRequest {
+ public:
+  TPoll(World* w, int idx, Message* m) : PollRequest(m), m_world(w), m_idx(idx) { TReq::s_live++; }
+  ~TPoll() override { TReq::s_live--; }
+  bool notify(result_t result, const SlaveSymbolString& slave) override {
+    Bytes s(slave.data(), slave.data() + slave.size());
+    bool restart = PollRequest::notify(result, slave);
+    m_world->lastResult[m_idx] = result;
+    m_world->evNotify(m_idx, result, s, restart);
+    if (!restart) { m_world->reqState[m_idx] = 2; m_world->reqObj[m_idx] = nullptr; }
+    return restart;
+  }
+  World* m_world;
+  int m_idx;
+};
+#endif
 
 static const int STEP_CAP = 600;
 
@@ -101,6 +138,14 @@ void Listener::notifyProtocolMessage(MessageDirection direction, const MasterSym
 // ------------------------------------------------------------------ world
 void World::enqueue(int idx) {
   if (reqObj[idx] == nullptr) {
+#ifdef BUSMC_WITH_POLL
+    if (sc.reqs[idx].kind == 2) {
+      PollCtx* pc = static_cast<PollCtx*>(pollCtx);
+      TPoll* p = new TPoll(this, idx, pc->msg);
+      if (p->prepare(sc.own) != RESULT_OK) { note("poll prepare failed"); delete p; reqState[idx] = 2; return; }
+      reqObj[idx] = p;
+    } else
+#endif
     reqObj[idx] = new TReq(this, idx, masters[idx], sc.reqs[idx].kind == 1, sc.reqs[idx].restarts);
   }
   reqState[idx] = 1;
@@ -111,7 +156,7 @@ void World::enqueue(int idx) {
     note("addRequest refused");
     reqState[idx] = 2;
     evNotify(idx, r, Bytes(), false);
-    if (sc.reqs[idx].kind == 1) { delete reqObj[idx]; reqObj[idx] = nullptr; }
+    if (sc.reqs[idx].kind != 0) { delete reqObj[idx]; reqObj[idx] = nullptr; }
   }
 }
 
@@ -143,6 +188,7 @@ void World::chooseResponder(uint8_t zz) {
 }
 
 int World::reqIndexOf(BusRequest* r) {
+  for (size_t i = 0; i < reqObj.size(); i++) if (reqObj[i] == r) return (int)i;
   const MasterSymbolString& m = r->getMaster();
   for (size_t i = 0; i < sc.reqs.size(); i++) {
     if (sc.reqs[i].master.size() == m.size() && memcmp(sc.reqs[i].master.data(), m.data(), m.size()) == 0) return (int)i;
@@ -251,7 +297,7 @@ void World::housekeeping() {
       if (res != RESULT_OK && res != RESULT_ERR_NO_SIGNAL && res != RESULT_ERR_SEND && res != RESULT_ERR_DEVICE
           && resubmitsLeft[i] > 0) {
         resubmitsLeft[i]--;
-        reqObj[i]->m_busLostRetries = 0;
+        static_cast<BusRequest*>(reqObj[i])->m_busLostRetries = 0;
         note("waiter re-submits");
         enqueue((int)i);
       }
@@ -353,7 +399,8 @@ uint64_t World::stateHash() {
   if (sc.silenceAtRead > 0) put(reads, 2);
   for (size_t i = 0; i < reqState.size(); i++) {
     put(reqState[i], 1); put(resubmitsLeft[i], 1);
-    put(reqObj[i] != nullptr ? reqObj[i]->m_restarts + 1 : 0, 1);
+    { TReq* t = dynamic_cast<TReq*>(reqObj[i]); put(reqObj[i] == nullptr ? 0 : (t != nullptr ? t->m_restarts + 1 : 0x40 + (int)reqObj[i]->getMaster().size()), 1);
+      if (reqObj[i] != nullptr && t == nullptr) { const MasterSymbolString& mm = reqObj[i]->getMaster(); s.append((const char*)mm.data(), mm.size()); } }
     put(reqObj[i] != nullptr ? reqObj[i]->m_busLostRetries : 0, 1);
     put((uint64_t)(lastResult[i] + 64), 1); put(collected[i], 1);
   }
@@ -401,6 +448,20 @@ void World::setup() {
     for (uint8_t b : sc.reqs[i].master) masters[i].push_back(b);
     resubmitsLeft[i] = sc.reqs[i].resubmits;
   }
+#ifdef BUSMC_WITH_POLL
+  pollCtx = nullptr;
+  for (size_t i = 0; i < sc.reqs.size(); i++) if (sc.reqs[i].kind == 2 && pollCtx == nullptr) {
+    PollCtx* pc = new PollCtx();
+    pc->map = new MessageMap(false, "", false);
+    pc->map->setResolver(&pc->resolver);
+    std::istringstream is("# type,circuit,name,comment,qq,zz,pbsb,id,fields\nr,c,poll2,,,08,b509,0d0100;0d0200,v,,HEX:4\n");
+    std::string err;
+    result_t lr = pc->map->readFromStream(&is, "poll.csv", 0, false, nullptr, &err);
+    pc->msg = pc->map->find("c", "poll2", "*", false);
+    if (lr != RESULT_OK || pc->msg == nullptr) { fprintf(stderr, "busworld: cannot load the poll message: %s\n", err.c_str()); abort(); }
+    pollCtx = pc;
+  }
+#endif
   h->m_running = true;
   tr->m_valid = true;
   if (sc.enhanced) dev->open();  // sends the INIT request like the daemon does at start-up
@@ -416,6 +477,10 @@ void World::teardown() {
   h->m_running = false;
   for (size_t i = 0; i < reqObj.size(); i++) if (reqObj[i] != nullptr) { delete reqObj[i]; reqObj[i] = nullptr; }
   leaked = TReq::s_live;
+#ifdef BUSMC_WITH_POLL
+  delete static_cast<PollCtx*>(pollCtx);
+  pollCtx = nullptr;
+#endif
   delete h;
   h = nullptr;
   tr = nullptr;
@@ -503,7 +568,12 @@ result_t World::onRead(unsigned int timeout) {
     if (frozen) alts.resize(1);
     if (sc.unbounded && gapLeft <= 0) alts.resize(1);  // A-mode: all slots used up, only the default continues
 
-    if (ex.useHash && !ex.replaying() && !ex.checkpoint(stateHash())) {
+    if ((ex.useHash || ex.trackCycles) && !ex.replaying() && !ex.checkpoint(stateHash())) {
+      if (ex.cycle) {
+        // the closed system returned to a state of this very run: under the default environment it loops forever
+        note("LIVELOCK: state repeats");
+        if (!ended) for (auto m : mons) m->onLivelock();
+      }
       endRun(false);
       return endTimeout();
     }
